@@ -11,6 +11,7 @@ statement, nothing else; see notes/design-C09.md.
 
 from __future__ import annotations
 
+import math
 import random
 
 from hsverif.core import Family, Result
@@ -56,6 +57,10 @@ def _gen_steps(rng, cap, floaty, n_steps, preemptible):
         elif floaty == "decimal":
             amt = rng.choice([0.1, 0.2, 0.3, 0.7, cap])
             amt = min(amt, cap)
+        elif floaty == "mixed":
+            # int capacity, float and int amounts mixed: the free capacity becomes a float carrying residue
+            amt = rng.choice([0.1, 0.1, 0.3, 0.3, 0.7, 1 / 3, 0.2, 1, cap])
+            amt = min(amt, cap)
         else:
             amt = rng.choice([1, 1, 1, 2, 3, cap]) if cap > 1 else 1
             amt = min(amt, cap)
@@ -74,9 +79,11 @@ def _gen_steps(rng, cap, floaty, n_steps, preemptible):
 
 
 def gen_resource(rng: random.Random, tier: str) -> dict:
-    floaty = rng.choices(["int", "binary", "decimal"], [0.7, 0.15, 0.15])[0]
+    floaty = rng.choices(["int", "binary", "decimal", "mixed"], [0.55, 0.12, 0.13, 0.2])[0]
     if floaty == "int":
         cap = rng.choice([1, 1, 2, 3, 4, 6])
+    elif floaty == "mixed":
+        cap = rng.choice([1, 1, 1, 2, 3])
     elif floaty == "binary":
         cap = rng.choice([1.0, 1.5, 2.0, 2.5])
     else:
@@ -87,6 +94,11 @@ def gen_resource(rng: random.Random, tier: str) -> dict:
     workers = []
     for _ in range(nw):
         workers.append({"at": base + rng.randint(0, spread), "steps": _gen_steps(rng, cap, floaty, rng.randint(1, 3), False)})
+    if floaty == "mixed":
+        # ... then requests for exactly what is free once the float traffic has come and (mostly) gone
+        late = base + spread + rng.choice([4, 10, 20, 60])
+        for k in range(rng.randint(1, 2)):
+            workers.append({"at": late + k, "steps": [{"op": "acq", "amt": cap, "hold": rng.choice([0, 1, 2]), "gap": 0, "twice": False}]})
     return {"kind": "Resource", "capacity": cap, "amounts": floaty, "workers": workers}
 
 
@@ -116,8 +128,19 @@ def run_resource(case: dict) -> Result:
     run = Run(res, [prim])
     led = run.ledger
     amounts = case.get("amounts", "int")
-    tol = EPS * max(1.0, cap) if amounts == "decimal" else 0
-    kind_shape = {"int": "int-amounts", "binary": "float-amounts-exact", "decimal": "float-amounts-decimal"}[amounts]
+    tol = EPS * max(1.0, cap) if amounts in ("decimal", "mixed") else 0
+    kind_shape = {"int": "int-amounts", "binary": "float-amounts-exact", "decimal": "float-amounts-decimal",
+                  "mixed": "int-capacity-float-amounts"}[amounts]
+
+    def fits_spec(avail, amount):
+        """The library's documented fit rule (Resource._fits): exact, or equal up to rel 1e-9 / abs 1e-12*capacity
+        when floats are involved.  The oracles never ask for more than this."""
+        if avail >= amount:
+            return True
+        if amounts in ("decimal", "mixed"):
+            return math.isclose(avail, amount, rel_tol=1e-9, abs_tol=1e-12 * cap)
+        return False
+
     flagged: set = set()
 
     def flag(oracle, shape, detail, witness=None):
@@ -150,7 +173,7 @@ def run_resource(case: dict) -> Result:
                     r.blocked = False
                     if grant is None:
                         r.outcome = "denied"
-                        if avail_before + tol >= st["amt"]:
+                        if fits_spec(avail_before, st["amt"]):
                             flag("try-denied-although-fits", kind_shape, f"try_acquire({st['amt']}) denied with available={avail_before}")
                         continue
                     r.extra = grant
@@ -261,7 +284,7 @@ def run_resource(case: dict) -> Result:
         if not waiting or corrupt[0]:
             return
         head = min(waiting, key=_key)
-        if head.amount <= prim.available + tol:
+        if fits_spec(prim.available, head.amount):
             partial = pre and preempt_seen[0] > 0
             shape = ("after-preemption/" if partial else "") + kind_shape
             flag(
@@ -1239,6 +1262,10 @@ def gen_limiter(rng: random.Random, tier: str) -> dict:
         if model == "weighted":
             q["weight"] = min(limit, rng.choice([1, 1, 2, 3]))
         reqs.append(q)
+    if model != "weighted" and rng.random() < 0.5:
+        # weight metadata riding along into a model that counts requests, not weights (legal: the weight is ignored)
+        for q in reqs:
+            q["weight"] = rng.choice([1, 2, 2, 3])
     case = {"kind": kind, "model": model, "limit": limit, "reqs": reqs}
     if model == "dynamic":
         case["limit_script"] = [{"at": rng.randint(1, spread + 10), "limit": rng.choice([1, 2, 3, 4, 5])} for _ in range(rng.randint(0, 3))]
@@ -1262,6 +1289,8 @@ def run_limiter(case: dict) -> Result:
     flagged: set = set()
     box = []
     variant = comp if comp == "ThreadPool" else f"Server/{model_kind}"
+    if model_kind != "weighted" and any(q.get("weight", 1) > 1 for q in reqs):
+        variant += "/weight-metadata"  # requests carry metadata weight > 1 into a model that takes one slot each
     burst = simultaneous([q["at"] for q in reqs])
     limit_changed = [False]
     prev_limit = [limit0]
@@ -1275,6 +1304,7 @@ def run_limiter(case: dict) -> Result:
 
     starts: list = []    # (seq, rid or None, t_ns)
     arrivals: list = []  # (seq, rid, t_ns)
+    ended: list = []     # rids seen by the downstream sink (Server only)
     seq = [0]
 
     def tick():
@@ -1303,13 +1333,21 @@ def run_limiter(case: dict) -> Result:
                 pt = reqs[rid]["pt"] if rid is not None else 1
                 return Duration.from_seconds(pt * TS)
 
+        class EndSink(Entity):
+            """Downstream of the server: sees every request that finished service (ground truth for 'ended')."""
+
+            def handle_event(self, event):
+                ended.append(event.context["metadata"]["rid"])
+                return None
+
+        sink = EndSink("sink")
         if model_kind == "int":
             model = None
-            prim = Server("prim", concurrency=limit0, service_time=StartLatency())
+            prim = Server("prim", concurrency=limit0, service_time=StartLatency(), downstream=sink)
         else:
             model = {"fixed": lambda: FixedConcurrency(limit0), "dynamic": lambda: DynamicConcurrency(limit0, min_limit=1, max_limit=8),
                      "weighted": lambda: WeightedConcurrency(limit0)}[model_kind]()
-            prim = Server("prim", concurrency=model, service_time=StartLatency())
+            prim = Server("prim", concurrency=model, service_time=StartLatency(), downstream=sink)
 
     def rejected_at_dequeue():
         return 0  # start index == arrival index only while nothing was rejected at dequeue; re-checked below
@@ -1322,7 +1360,7 @@ def run_limiter(case: dict) -> Result:
             return None
 
     knob = Knob("knob")
-    run = Run(res, [prim, knob])
+    run = Run(res, [prim, knob] + ([sink] if comp == "Server" else []))
     box.append(run)
     for i, q in enumerate(reqs):
         md = {"rid": i}
@@ -1367,6 +1405,8 @@ def run_limiter(case: dict) -> Result:
             flag("available-out-of-range", variant, f"active={active} available={avail}")
 
     def head_weight():
+        if model_kind != "weighted":
+            return 1  # these models take one slot per request whatever its metadata says
         k = len(starts) + counters()[4]
         if 0 <= k < len(arrivals):
             return reqs[arrivals[k][1]].get("weight", 1)
@@ -1375,6 +1415,16 @@ def run_limiter(case: dict) -> Result:
     def quiescent(where):
         res.count("end_of_instant_checks")
         active, avail, lim, done, rej = counters()
+        if comp == "Server" and rej == 0 and not limit_changed[0]:
+            # independent in-service ledger: started (service-time distribution) minus ended (downstream sink)
+            gone = set(ended)
+            live = [rid for _, rid, _ in starts if rid is not None and rid not in gone]
+            if model_kind == "weighted":
+                w = sum(reqs[rid].get("weight", 1) for rid in live)
+                if w > lim:
+                    flag("over-admission", variant, f"{where}: requests in service carry weight {w}, capacity {lim}")
+            elif len(live) > lim:
+                flag("over-admission", variant, f"{where}: {len(live)} requests between service start and downstream, limit={lim}")
         if prim.depth > 0 and avail >= head_weight():
             if limit_changed[0] and active >= prev_limit[0]:
                 shape = "after-limit-increase"  # the free slots exist only because the limit was raised
